@@ -156,14 +156,27 @@ func init() {
 		}
 	}
 	v := func(s string) []byte { return []byte(s + "-0123456789") }
+	// the two keys are as alike as the client's keys get: an outbound PUBLISH
+	// record and the inbound marker whose identifier has the same low bits
+	const k1, k2 = 0x08001, 0x18001
 	register("fsconc1", mk([]ActorSpec{
-		{Name: "A", Ops: []Op{{Kind: "fs-save", Key: 1, Msg: v("a1")}, {Kind: "fs-save", Key: 1, Msg: v("a2")}}},
-		{Name: "B", Ops: []Op{{Kind: "fs-load", Key: 1}, {Kind: "fs-list"}, {Kind: "fs-load", Key: 1}}},
-		{Name: "C", Ops: []Op{{Kind: "fs-save", Key: 2, Msg: v("c1")}, {Kind: "fs-delete", Key: 2}}},
+		{Name: "A", Ops: []Op{{Kind: "fs-save", Key: k1, Msg: v("a1")}, {Kind: "fs-save", Key: k1, Msg: v("a2")}}},
+		{Name: "B", Ops: []Op{{Kind: "fs-load", Key: k1}, {Kind: "fs-list"}, {Kind: "fs-load", Key: k1}}},
+		{Name: "C", Ops: []Op{{Kind: "fs-save", Key: k2, Msg: v("c1")}, {Kind: "fs-delete", Key: k2}}},
 	}))
 	register("fsconc2", mk([]ActorSpec{
-		{Name: "A", Ops: []Op{{Kind: "fs-save", Key: 1, Msg: v("a1")}, {Kind: "fs-delete", Key: 1}}},
-		{Name: "B", Ops: []Op{{Kind: "fs-load", Key: 1}, {Kind: "fs-load", Key: 2}, {Kind: "fs-list"}}},
-		{Name: "C", Ops: []Op{{Kind: "fs-save", Key: 2, Msg: v("c1")}, {Kind: "fs-save", Key: 2, Msg: v("c2-longer-value")}, {Kind: "fs-load", Key: 1}}},
+		{Name: "A", Ops: []Op{{Kind: "fs-save", Key: k1, Msg: v("a1")}, {Kind: "fs-delete", Key: k1}}},
+		{Name: "B", Ops: []Op{{Kind: "fs-load", Key: k1}, {Kind: "fs-load", Key: k2}, {Kind: "fs-list"}}},
+		{Name: "C", Ops: []Op{{Kind: "fs-save", Key: k2, Msg: v("c1")}, {Kind: "fs-save", Key: k2, Msg: v("c2-longer-value")}, {Kind: "fs-load", Key: k1}}},
 	}))
+	// one scenario per key bit: two concurrent savers whose keys differ in that bit only
+	for bit := 0; bit < 17; bit++ {
+		ka := uint(0x0aaaa)
+		kb := ka ^ 1<<bit
+		register(fmt.Sprintf("fsbit%02d", bit), mk([]ActorSpec{
+			{Name: "A", Ops: []Op{{Kind: "fs-save", Key: ka, Msg: v("a1-longer-value")}}},
+			{Name: "B", Ops: []Op{{Kind: "fs-load", Key: ka}, {Kind: "fs-load", Key: kb}, {Kind: "fs-list"}}},
+			{Name: "C", Ops: []Op{{Kind: "fs-save", Key: kb, Msg: v("c1")}}},
+		}))
+	}
 }
